@@ -39,6 +39,7 @@ let split_on (sep : string) (l : string list) : string list list =
   go [] [] l
 
 type parsed = Mut of string * op * bool (* harness-level extra wf *) | Qry of string * query | BadOp
+            | Boot of int * bootrec | GetBoot of int | ListNodes
 
 let parse_op (text : string) : parsed =
   try
@@ -59,6 +60,12 @@ let parse_op (text : string) : parsed =
     | ["Q"; n; lo; hi; mx] -> Qry ("Q", QIter (nid_of (node n), num lo, num hi, num mx))
     | ["RRS"; n; a] -> Qry ("RRS", QState (nid_of (node n), num a))
     | ["GS"; n] -> Qry ("GS", QSnap (nid_of (node n)))
+    | ["BOOT"; n; j; t; g] ->
+      let j = num j and t = num t in
+      if not (j = N0 || j = n_of_int 1) || not (List.mem t [n_of_int 1; n_of_int 2; n_of_int 3]) then raise Bad;
+      Boot (node n, { b_join = (j <> N0); b_type = t; b_tag = Some (num g) })
+    | ["GB"; n] -> GetBoot (node n)
+    | ["LNI"] -> ListNodes
     | _ -> BadOp
   with Bad -> BadOp
 
@@ -107,10 +114,21 @@ let faithful_of (kind : string) : faithful option =
 
 let run_case (id : string) (kind : string) (body : string) =
   let s = ref spec_init in
+  let bs = ref [] in
   let fm = faithful_of kind in
   List.iteri (fun k text ->
     match parse_op text with
     | BadOp -> Printf.printf "%s %d ? bad\n" id k
+    | Boot (n, b) -> bs := bs_set !bs (nid_of n) b; Printf.printf "%s %d BOOT ok\n" id k
+    | GetBoot n ->
+      (match bs_get !bs (nid_of n) with
+       | None -> Printf.printf "%s %d GB none\n" id k
+       | Some b ->
+         Printf.printf "%s %d GB %d %s %s\n" id k (if b.b_join then 1 else 0) (string_of_n b.b_type)
+           (match b.b_tag with Some g -> string_of_n g | None -> "-1"))
+    | ListNodes ->
+      let l = List.filter (fun i -> bs_has !bs (nid_of i)) (List.init (Array.length node_ids) (fun i -> i)) in
+      Printf.printf "%s %d LNI [%s]\n" id k (String.concat " " (List.map string_of_int l))
     | Qry (name, q) ->
       if spec_wf_query !s q then Printf.printf "%s %d %s %s\n" id k name (show_answer (spec_answer !s q))
       else Printf.printf "%s %d %s unspec\n" id k name;
@@ -124,6 +142,7 @@ let run_case (id : string) (kind : string) (body : string) =
     | Mut (name, o, extra) ->
       if extra && spec_wf_op !s o then begin
         s := spec_step !s o;
+        bs := boot_step !bs o;
         (match fm with
          | Some f -> (match f.st with Some d -> f.st <- f.step d o | None -> ())
          | None -> ());
